@@ -475,6 +475,7 @@ type pod struct {
 	colocate bool // run jobs on the pod's node (pod-crash episodes) instead of their own node
 	jobs     []*jobRec
 	onJob    func(j *jobRec) // called right before the job task starts (arms faults)
+	onKilled func(j *jobRec) // called on the parent's task when a job process was found killed
 	// inspect, when set, sees the input list of every job before it starts
 	// (diagnosis only; must not touch instrumented code)
 	inspect func(files []string)
@@ -563,6 +564,7 @@ func hookRunJob(ctx context.Context, cfg *compaction.SubprocessJobConfig, logger
 		j.node = p.sn
 	} else {
 		j.node = simrt.NodeOf(fmt.Sprintf("job%d", j.idx))
+		j.node.WallOffset = p.sn.WallOffset // a child process reads its machine's wall clock
 	}
 	j.fsBase, j.stBase = j.node.FSOps(), j.node.Steps()
 	p.jobs = append(p.jobs, j)
@@ -597,6 +599,9 @@ func hookRunJob(ctx context.Context, cfg *compaction.SubprocessJobConfig, logger
 		j.killed = true
 		simrt.Count("fault.job_killed", 1)
 		simrt.Event("JOB-KILLED job=%d", j.idx)
+		if p.onKilled != nil {
+			p.onKilled(j)
+		}
 		if ctx.Err() != nil {
 			return nil, fmt.Errorf("subprocess cancelled: %w", ctx.Err())
 		}
